@@ -89,6 +89,15 @@ func Init(level string) *Ctx {
 	return c
 }
 
+// maxPrinted caps the violations printed and written as replay files (VERIF_MAX_PRINTED overrides).
+var maxPrinted = func() int {
+	n := 25
+	if s := os.Getenv("VERIF_MAX_PRINTED"); s != "" {
+		fmt.Sscan(s, &n)
+	}
+	return n
+}()
+
 func (c *Ctx) Quick() bool    { return c.Tier == "quick" }
 func (c *Ctx) Thorough() bool { return c.Tier == "thorough" }
 
@@ -215,7 +224,7 @@ func (c *Ctx) Finish(rule string) {
 			continue
 		}
 		unknown++
-		if unknown > 25 {
+		if unknown > maxPrinted {
 			continue
 		}
 		h := sha256.Sum256([]byte(k))
@@ -234,8 +243,8 @@ func (c *Ctx) Finish(rule string) {
 			fmt.Printf("  key=%s\n  %s\n", k, strings.ReplaceAll(w, "\n", "\n  "))
 		}
 	}
-	if unknown > 25 {
-		fmt.Printf("(%d further violations suppressed from stdout; replay files written)\n", unknown-25)
+	if unknown > maxPrinted {
+		fmt.Printf("(%d further violations suppressed from stdout)\n", unknown-maxPrinted)
 	}
 	cov := map[string]interface{}{}
 	for k, v := range c.Extra {
